@@ -791,6 +791,11 @@ type responseWriter struct {
 
 // WriteHeader captures the status code
 func (rw *responseWriter) WriteHeader(statusCode int) {
+	// A backend response without Content-Type must stay without one:
+	// a nil entry keeps net/http from sniffing and adding its own
+	if _, ok := rw.Header()["Content-Type"]; !ok {
+		rw.Header()["Content-Type"] = nil
+	}
 	rw.statusCode = statusCode
 	rw.ResponseWriter.WriteHeader(statusCode)
 }
